@@ -130,7 +130,8 @@ CHECKS = {
              "For EVERY dataset accepted by the executable checker reachWFb (C16_checked_dataset): nodes = reachable nuclides + SF "
              "nodes, row = minimum number of decays, names and positions pairwise distinct, edges = listed links; the driver "
              "evaluates reachWFb on every synthetic / dense artificial dataset of the run (diagrams compared with the model and "
-             "the independent reading there too). Label texts and rendering are compared per input.",
+             "the independent reading there too). C16_label_decodes: the node-label text (modelled, table regenerated from the source) "
+             "decodes back to element / mass number / state. Half-life line, edge labels and rendering are compared per input.",
         ref="§4 C16", technique="Lean 4 kernel decision for all roots of the regenerated dataset + exhaustive correspondence",
         note=NOTE + "networkx/Matplotlib not modelled; label texts per input."),
     "C17": dict(
